@@ -84,6 +84,11 @@ def hook(cfg, tshim, mode):
                 if rec["first_step_vel"] is None:
                     # the velocities the first integrator step starts from
                     rec["first_step_vel"] = molecule.velocities.detach().clone().tolist()
+                if rec["mass"] is None:
+                    # (an engine that does not go through initialize_velocity, e.g. for user-supplied velocities)
+                    rec["mass"] = molecule.mass.squeeze(-1).tolist()
+                    rec["n_dof"] = self.n_dof.tolist() if torch.is_tensor(self.n_dof) else self.n_dof
+                    rec["coords0"] = molecule.coordinates.detach().clone()
                 r = orig_step(self, i, molecule, *a, **kw)
                 pad = molecule.species == 0
                 if pad.any() and rec["coords0"] is not None:
@@ -158,7 +163,7 @@ def gen(rng, pinned_sh=None):
     if user:
         cfg["user_vel"] = {"seed": rng.randrange(1 << 20), "scale": rng.choice([0.005, 0.02])}
     moving = cfg["temp"] > 0 or user
-    if u < 0.4 or not moving or eng in ("sh", "sh_model"):
+    if u < 0.4 or not moving or eng == "sh":
         cfg["remove_com"] = None
     elif u < 0.7 or small:
         cfg["remove_com"] = ["linear", rng.randint(1, 3)]
